@@ -9,7 +9,8 @@ from ..harness import Sub, Violation, crash_is_violation
 from ..oracles import bspl
 
 PROPERTY = "C07"
-HANG_SECONDS = 40.0
+HANG_SECONDS = 60.0
+LINE_BUDGET = 1000000000
 RULE = ("Hypothesis-generated spline spaces (degree 1-5, 1-D up to 10; 1-12 cells; uniform / non-uniform breaks "
         "with adjacent ratio <= 20; clamped / periodic; uniform flag only on uniform breaks so degree 3 takes "
         "the uniform-cubic path), coefficient vectors (floats |c|<=1e3, unit vectors, constants; periodic "
